@@ -760,3 +760,82 @@ def native_replay(workdir, ob, inputs, driver_cc):
             confirmed = False
     res['confirmed'] = confirmed
     return res
+
+
+# ----------------------------------------------------------------------------- lowering self-test (translation validation of ll2c on concrete inputs)
+def selftest(workdir, ob, driver_cc, seed, n_vectors=3):
+    """Run every wrapper of a kind-H obligation natively (g++ -O0, no sanitizer) on random concrete inputs and require the translated C,
+    executed by CBMC with the same inputs pinned, to return bit-identical results.  A mismatch is a translator (or compiler-semantics)
+    problem: reported as infrastructure, never as a violation.  Returns (n_compared, mismatches, note)."""
+    import random
+    rnd = random.Random('%s/%s' % (ob.id, seed))
+    ws = [w for w in ob.wrappers if w.ret != 'void' and all(t in BITS for t, n in w.params)]
+    if not ws: return 0, [], 'no scalar wrappers'
+    d = os.path.join(workdir, 'selftest_' + san(ob.id)); os.makedirs(d, exist_ok=True)
+    # native side
+    L = ['#include <cstdio>', '#include <cstdint>', '#include <cstring>', '#include <cstdlib>']
+    for w in ws:
+        L.append('extern "C" %s %s(%s);' % (w.ret, w.name, ', '.join('%s %s' % p for p in w.params)))
+    L.append('template <class T> static unsigned long long bits_of(T v) { unsigned long long b = 0; std::memcpy(&b, &v, sizeof v); return b; }')
+    L.append('template <class T> static T from_bits(unsigned long long b) { T v; std::memcpy(&v, &b, sizeof v); return v; }')
+    L.append('int main(int argc, char **argv) { int k = 1;')
+    vectors = []
+    def rand_bits(t):
+        w = BITS[t]
+        r = rnd.random()
+        if t in ('float', 'double'):
+            import struct
+            x = rnd.choice([0.0, 1.0, -1.5, 1e10, -3.25e-3, 12345.678, float(rnd.randrange(-10 ** 6, 10 ** 6)) / 7.0])
+            return struct.unpack('<I', struct.pack('<f', x))[0] if t == 'float' else struct.unpack('<Q', struct.pack('<d', x))[0]
+        if t == 'bool': return rnd.randrange(2)
+        if r < 0.4: return rnd.randrange(0, 200) % (1 << w)
+        if r < 0.6: return (rnd.randrange(-200, 0)) % (1 << w)
+        return rnd.getrandbits(w)
+    calls = []
+    for w in ws:
+        for v in range(n_vectors):
+            args = [rand_bits(t) for t, n in w.params]
+            calls.append((w, args))
+            L.append('  { auto r = %s(%s); std::printf("%%llx\\n", bits_of(r)); }' % (
+                w.name, ', '.join('from_bits<%s>(0x%xULL)' % (t, a) for (t, n), a in zip(w.params, args))))
+    L.append('  return 0; }')
+    open(os.path.join(d, 'native_main.cc'), 'w').write('\n'.join(L) + '\n')
+    rc, out, err, dt = run(['g++', '-std=' + ob.std, '-O0', '-w', '-fpermissive', '-Wno-narrowing', '-ffp-contract=off', '-I' + INC, *ob.extra_cxxflags,
+                            driver_cc, os.path.join(d, 'native_main.cc'), '-o', os.path.join(d, 'native')], timeout=900, mem_kb=16 * 1024 * 1024)
+    if rc != 0: return 0, [], 'native build failed: ' + err[-300:]
+    rc, out, err, dt = run([os.path.join(d, 'native')], timeout=60)
+    if rc != 0: return 0, [], 'native run failed (rc=%s): the random input may hit UB; skipped' % rc
+    native = [int(x, 16) for x in out.split()]
+    if len(native) != len(calls): return 0, [], 'native output mismatch'
+    # CBMC side: translated closure with pinned inputs
+    obdir = os.path.join(workdir, san(ob.id))
+    H = ['#define VF_CBMC 1', '#include "spec_lib.h"', '_Bool ll2c_ub_on = 0;', '#include "%s"' % os.path.join(obdir, 'closure.c'),
+         'static unsigned long long st_bits(const void *p, unsigned n) { unsigned long long b = 0; __builtin_memcpy(&b, p, n); return b; }', 'void harness(void) {']
+    for i, ((w, args), nv) in enumerate(zip(calls, native)):
+        decl = []
+        for j, ((t, n), a) in enumerate(zip(w.params, args)):
+            ct_ = c_ty(t)
+            if t == 'float': decl.append('float a%d_%d = vf_bits_f32(0x%xu);' % (i, j, a))
+            elif t == 'double': decl.append('double a%d_%d = vf_bits_f64(0x%xULL);' % (i, j, a))
+            elif t == 'bool': decl.append('_Bool a%d_%d = %d;' % (i, j, a & 1))
+            else: decl.append('%s a%d_%d = (%s)0x%xULL;' % (ct_, i, j, ct_, a))
+        H.append('  { ' + ' '.join(decl))
+        rt = c_ty(w.ret)
+        H.append('    %s r = (%s)f_%s(%s);' % (rt, rt, w.name, ', '.join('a%d_%d' % (i, j) for j in range(len(args)))))
+        mask = (1 << BITS.get(w.ret, 64)) - 1 if w.ret != 'bool' else 1
+        if w.ret == 'float': rb = '(unsigned long long)vf_f32_bits(r)'
+        elif w.ret == 'double': rb = '(unsigned long long)vf_f64_bits(r)'
+        elif w.ret == 'bool': rb = '(unsigned long long)(r ? 1 : 0)'
+        else: rb = '(unsigned long long)(uint%d_t)r' % BITS.get(w.ret, 64)
+        H.append('    __CPROVER_assert((%s & 0x%xULL) == 0x%xULL, "SELFTEST %s #%d"); }' % (rb, mask, nv & mask, w.name, i))
+    H.append('}')
+    open(os.path.join(d, 'st.c'), 'w').write('\n'.join(H) + '\n')
+    rc, out, err, dt = run(['goto-cc', '--function', 'harness', '-I' + HERE, 'st.c', '-o', 'st.gb'], timeout=300, cwd=d)
+    if rc != 0: return 0, [], 'goto-cc failed: ' + (err + out)[-300:]
+    cmd = ['cbmc', 'st.gb', '--no-standard-checks', '--object-bits', '12', '--json-ui'] + (['--unwind', str(ob.unwind)] if ob.unwind else [])
+    rc, out, err, dt = run(cmd, timeout=300, cwd=d)
+    pr = parse_cbmc_json(out) if rc is not None else None
+    if not pr or pr[0] is None: return 0, [], 'cbmc did not answer'
+    mism = [r.get('description') for r in pr[0] if r.get('description', '').startswith('SELFTEST') and r['status'] != 'SUCCESS']
+    n = sum(1 for r in pr[0] if r.get('description', '').startswith('SELFTEST'))
+    return n, mism, ''
